@@ -37,42 +37,52 @@ def run (op impl : String) : Ans :=
                   | none => { model := m, verdict := "ok", tags := tags }
                   | some c => { model := m, verdict := "FAIL:" ++ c, tags := ("v:" ++ c) :: tags })
            | _ => { model := m, verdict := "skip", tags := "write-err" :: tags })
-  | ["rdh", hx] =>
-    -- wire bytes: the client's header set is what THIS driver parses from the bytes (strict parser of C25), the
-    -- implementation went through the real ReadRequest; unreadable / non-strict texts are outside this stream
+  | "rdh" :: hx :: _ =>
+    -- wire bytes (optionally delivered in segments: the model does not look at the segmentation): the client's header
+    -- set is what THIS driver parses from the bytes (strict parser of C25); the implementation went through the real
+    -- ReadRequest (readTransfer included).  Result = the HEAD Request.Write produced.
     (match bytesOfHex hx with
      | none => { model := "bad-op", verdict := "skip" }
      | some raw =>
        match headLines (raw.length + 1) raw with
-       | some (_ :: fls, []) =>
-         (match parseFields fls with
-          | none => { model := "unparsed-wire", verdict := "skip", tags := ["wire-nonstrict"] }
-          | some wf =>
-            let h := wireHeader wf
-            let bad := wf.any fun f => [kContentLength, kTransferEncoding, kTrailer, [80, 114, 97, 103, 109, 97]].contains (canon f.1)
-            if bad || !keysCanon h || !distinctKeys (h.map (·.1)) || (wf.filter fun f => canon f.1 == kHost).map (·.2) != [[97]] then
-              { model := "unmodelled-wire", verdict := "skip", tags := ["wire-unmodelled"] }
-            else
-              let h' := hopRemove BfeVerif.Generated.C26.hopHeaders h
-              let m := renderW (true, writeHop h')
-              let conn := lookup h kConnection
-              let tags := ["wire", "nt"] ++ (if conn.length ≥ 2 then ["conn-multiline"] else []) ++
-                (match conn with | v :: _ :: _ => if eqFold (trimOWS v) sClose then ["conn-close-first"] else [] | _ => []) ++
-                (if (connTokens h).isEmpty then [] else ["conn-tokens"]) ++ (if h' != h then ["removed"] else [])
-              if impl == "reject" then { model := m, verdict := "FAIL:wire-rejected", tags := tags }
-              else match impl.splitOn " " with
-                | ["ok", ohx] =>
-                  (match bytesOfHex ohx with
-                   | none => { model := m, verdict := "FAIL:unreadable", tags := tags }
-                   | some bs =>
-                     match rfcOne bs with
-                     | .error _ => { model := m, verdict := "FAIL:wire-unparsable-output", tags := tags }
-                     | .ok p =>
-                       let fs := p.fields.filter fun f => !(f.1 == kHost || f.1 == kContentLength)
-                       match violation h fs with
-                       | none => { model := m, verdict := "ok", tags := tags }
-                       | some c => { model := m, verdict := "FAIL:" ++ c, tags := ("v:" ++ c) :: tags })
-                | _ => { model := m, verdict := "skip", tags := "write-err" :: tags })
+       | some (rl :: fls, _) =>
+         (match parseFields fls, splitOn 32 rl with
+          | some wf, [method, [47], _] =>
+            (match wireHeader wf with
+             | none => { model := "unmodelled-wire", verdict := "skip", tags := ["wire-unmodelled"] }
+             | some (h, fr) =>
+               if !keysCanon h || !distinctKeys (h.map (·.1)) || (wf.filter fun f => canon f.1 == kHost).map (·.2) != [[97]] || !isToken method then
+                 { model := "unmodelled-wire", verdict := "skip", tags := ["wire-unmodelled"] }
+               else
+                 let h' := hopRemove BfeVerif.Generated.C26.hopHeaders h
+                 let m := renderW (true, writeHopF method fr h')
+                 let conn := lookup h kConnection
+                 let tags := ["wire", "nt"] ++ (if conn.length ≥ 2 then ["conn-multiline"] else []) ++
+                   (match conn with | v :: _ :: _ => if eqFold (trimOWS v) sClose then ["conn-close-first"] else [] | _ => []) ++
+                   (match fr with | .none => [] | .cl _ => ["wire-cl-body"] | .chunked => ["wire-chunked"]) ++
+                   (if (connTokens h).length > 20 then ["conn-many-tokens"] else []) ++
+                   (if (connTokens h).isEmpty then [] else ["conn-tokens"]) ++ (if h' != h then ["removed"] else []) ++
+                   (if (op.splitOn " ").length > 2 && (op.splitOn " ").getD 2 "-" != "-" then ["segmented"] else [])
+                 if impl == "reject" then { model := m, verdict := "FAIL:wire-rejected", tags := tags }
+                 else match impl.splitOn " " with
+                   | ["ok", ohx] =>
+                     (match bytesOfHex ohx with
+                      | none => { model := m, verdict := "FAIL:unreadable", tags := tags }
+                      | some bs =>
+                        match headLines (bs.length + 1) bs with
+                        | some (_ :: ols, _) =>
+                          (match parseFields ols with
+                           | none => { model := m, verdict := "FAIL:wire-unparsable-output", tags := tags }
+                           | some ofs =>
+                             -- fields Request.write emits itself (Host, framing) are not client fields
+                             let fs := ofs.filter fun f => !(f.1 == kHost || f.1 == kContentLength ||
+                               (f.1 == kTransferEncoding && fr == .chunked && f.2 == sChunked))
+                             match violation h fs with
+                             | none => { model := m, verdict := "ok", tags := tags }
+                             | some c => { model := m, verdict := "FAIL:" ++ c, tags := ("v:" ++ c) :: tags })
+                        | _ => { model := m, verdict := "FAIL:wire-unparsable-output", tags := tags })
+                   | _ => { model := m, verdict := "skip", tags := "write-err" :: tags })
+          | _, _ => { model := "unparsed-wire", verdict := "skip", tags := ["wire-nonstrict"] })
        | _ => { model := "unparsed-wire", verdict := "skip", tags := ["wire-nonstrict"] })
   | _ => { model := "bad-op", verdict := "skip" }
 
